@@ -171,7 +171,18 @@ func buildAssertion(r *RNG, s *AuthSpec) M {
 	if allowHex == nil {
 		allowHex = []string{}
 	}
-	op := M{"op": "authenticate", "origin": hx([]byte(s.Origin)), "challenge": hx(s.Challenge), "allow": allowHex, "uv": hx([]byte(s.UV)),
+	var allowTypes []string
+	if len(allowHex) >= 2 && r.P(1, 3) {
+		// descriptors of a type this library does not know stand in front of the credential's own descriptor
+		for i := range allowHex {
+			t := "public-key"
+			if i == 0 || (i < len(allowHex)-1 && r.Bool()) {
+				t = pick(r, []string{"public-key-v2", "", "password"})
+			}
+			allowTypes = append(allowTypes, t)
+		}
+	}
+	op := M{"op": "authenticate", "origin": hx([]byte(s.Origin)), "challenge": hx(s.Challenge), "allow": allowHex, "allowTypes": allowTypes, "uv": hx([]byte(s.UV)),
 		"rawId": hx(rawID), "cdj": hx(cdj), "authData": hx(authData), "sig": hx(sig), "userHandle": hx(uh), "store": s.Store}
 	if s.Get != "" {
 		op["get"] = s.Get
